@@ -9,6 +9,10 @@ from . import compare, expr as E, model, routinegen as G
 from .real import schema, try_compile
 
 
+# the input shapes compile_routine accepts; every stream cycles through them
+INPUT_FORMS = ("schema", "program", "dict", "routine", "routine-twice")
+
+
 class Case:
     __slots__ = ("seed", "spec", "qref", "tree_of", "sexp", "status", "result", "err")
 
@@ -33,7 +37,7 @@ class Case:
             self.sexp = G.routine_sexp(sch.program, self.tree_of)
         except KeyError as e:
             self.sexp = None
-        self.status, res = try_compile(self.qref, form=("schema", "program", "dict")[self.seed % 3], **kw)
+        self.status, res = try_compile(self.qref, form=INPUT_FORMS[self.seed % len(INPUT_FORMS)], **kw)
         if self.status == "ok":
             self.result = res
         else:
@@ -239,6 +243,15 @@ def _work(args):
                     res.disagreement("compile_routine vs compileRoutine (tree)", {"qref": case.qref, "generator_seed": seed},
                                      [d[3] for d in diffs[:3]], [(list(d[0]), d[1], d[2]) for d in diffs[:3]])
         mod.oracle(case, res, extra)
+        # every replay records the input shape the case was handed to compile_routine in
+        form = INPUT_FORMS[seed % len(INPUT_FORMS)]
+        res.stats["input_form_" + form] += 1
+        for v in res.violations:
+            if isinstance(v[2], dict):
+                v[2].setdefault("input_form", form)
+        for d_ in res.disagreements:
+            if isinstance(d_[1], dict):
+                d_[1].setdefault("input_form", form)
     except CaseTimeout:
         # one case ran longer than its budget (sympy's numeric evaluation of huge products, towers of powers, ...): the case is
         # dropped and counted; termination as such is C17's subject and is examined there with its own retry logic
